@@ -105,6 +105,14 @@ impl TorrentMaps {
     }
 }
 
+#[cfg(aquatic_verif)]
+impl TorrentMaps {
+    /// Number of torrent entries held per address family (observed by simulation harnesses)
+    pub fn verif_num_torrents(&self) -> (usize, usize) {
+        (self.ipv4.torrents.len(), self.ipv6.torrents.len())
+    }
+}
+
 struct TorrentMap {
     torrents: IndexMap<InfoHash, TorrentData>,
     #[cfg(feature = "metrics")]
